@@ -45,8 +45,8 @@ def main(argv=None):
         solve.RETRY = True
     funcs = list(pm.FUNCTIONS)
     if a.only:
-        funcs = [f for f in funcs if a.only in f]
-    tasks = [(pm.CONTRACT_MODULES, fq, opts) for fq in funcs]
+        funcs = [f for f in funcs if a.only in (f[0] if isinstance(f, tuple) else f)]
+    tasks = [((fq[1], fq[0], opts) if isinstance(fq, tuple) else (pm.CONTRACT_MODULES, fq, opts)) for fq in funcs]
     results = R.run_tasks(tasks)
     pid = pm.PROPERTY
     known = [k for k in load_known() if k.get("property") == pid and k.get("status", "open") == "open"]
@@ -180,12 +180,22 @@ def main(argv=None):
                 violations.append((b["name"], w.get("clause", "bounded"), {"witness": {"model": json.dumps(w)}, "bounded": True, "native": w}))
         elif rc != 0:
             faults.append((b["name"], f"bounded check crashed (exit {rc}): {(out + err)[-1500:]}"))
+    # findings that are identified by a native witness only (no deductive clause is claimed for them)
+    for k in known:
+        if k.get("standalone") and not a.only:
+            ok, detail = confirm_known(pm, k)
+            if ok:
+                known_hits.append((k, k.get("function", "-"), k.get("clause", "-")))
     exit_code = R.EXIT_HELD
     os.makedirs(os.path.join(ROOT, "replays"), exist_ok=True)
     n_viol = 0
     for hit, fq, clause in known_hits:
         print(f"KNOWN-FINDING: property={pid} {hit['what']}")
+    seen_v = set()
     for fq, clause, d in violations:
+        if (fq, clause) in seen_v:
+            continue
+        seen_v.add((fq, clause))
         n_viol += 1
         path, reproduced = write_replay(pm, pid, fq, clause, d)
         tail = "" if reproduced else " no-failing-input-found"
